@@ -461,6 +461,102 @@ def rule_H6_H7(ctx, sm):
     ctx.floor('C05.H7.cycmax', 24)
 
 
+def _node_expr(n):
+    """The part of the syntax tree that is evaluated at CFG node n."""
+    a = n.ast
+    if a is None:
+        return []
+    if n.kind == 'for':
+        return [a.iter]
+    if isinstance(a, ast.With):
+        return [i.context_expr for i in a.items]
+    if n.kind == 'def':
+        return []
+    return [a]
+
+
+def rule_H8(ctx, sm):
+    """Stale derived values.  The semicoarsening / line-relaxation direction
+    of the parameter object advances at the end of every fine-grid cycle; a
+    local that was computed from it (cycmax, a hoisted "coarsest" flag, ...)
+    and is used again afterwards without being recomputed describes the
+    PREVIOUS cycle's direction: the level test and the V/W/F hand-over then
+    follow the wrong hierarchy."""
+    from ..core.cfg import CFG
+    mg = sm.func('multigrid')
+    var = au.params(mg)[3]
+    srcs = (f'{var}.sc_dir', f'{var}.lr_dir')
+    cfg = CFG(mg)
+    stores = {}
+    for n in cfg.nodes:
+        if n.kind == 'stmt' and isinstance(n.ast, ast.Assign):
+            for t in n.ast.targets:
+                if ast.unparse(t) in srcs:
+                    stores.setdefault(ast.unparse(t), []).append(n)
+    ctx.anchor(len(stores) == 2, 'direction advance statements in multigrid')
+    # locals derived from the direction (transitively)
+    defs = {}
+    for n in cfg.nodes:
+        if n.kind == 'stmt' and isinstance(n.ast, (ast.Assign, ast.AugAssign)):
+            ts = n.ast.targets if isinstance(n.ast, ast.Assign) else \
+                [n.ast.target]
+            for t in ts:
+                for x in ([t] if isinstance(t, ast.Name) else
+                          t.elts if isinstance(t, ast.Tuple) else []):
+                    if isinstance(x, ast.Name):
+                        defs.setdefault(x.id, []).append(n)
+    derived = {}
+    changed = True
+    while changed:
+        changed = False
+        for name, ds in defs.items():
+            for d in ds:
+                reads = {ast.unparse(x) for x in ast.walk(d.ast.value)
+                         if isinstance(x, (ast.Attribute, ast.Name))}
+                # control dependence: the guards of the definition
+                for t, _p in au.guards_of(d.ast, mg):
+                    reads |= {ast.unparse(x) for x in ast.walk(t)
+                              if isinstance(x, (ast.Attribute, ast.Name))}
+                for src in srcs:
+                    dep = src in reads or any(
+                        r in derived and src in derived[r] for r in reads)
+                    if dep and src not in derived.setdefault(name, set()):
+                        derived[name].add(src)
+                        changed = True
+    ctx.anchor('cycmax' in derived or len(derived) >= 1,
+               'locals derived from the cycling direction')
+    n_uses = 0
+    for name, ss in sorted(derived.items()):
+        for src in sorted(ss):
+            for S in stores[src]:
+                for U in cfg.nodes:
+                    if U in defs[name] and not isinstance(U.ast,
+                                                          ast.AugAssign):
+                        # a plain re-definition: its own reads are fresh
+                        continue
+                    used = any(isinstance(x, ast.Name) and x.id == name and
+                               isinstance(x.ctx, ast.Load)
+                               for e in _node_expr(U) for x in ast.walk(e))
+                    if not used:
+                        continue
+                    n_uses += 1
+                    path = cfg.reachable_between(S, U, avoid=[
+                        d for d in defs[name]
+                        if not isinstance(d.ast, ast.AugAssign)])
+                    stale = U in path
+                    ctx.check('C05.H8.stale', f'multigrid: `{name}` (from '
+                              f'{src}) used at line-kind `'
+                              f'{au.stext(U.ast)[:48]}`', not stale,
+                              f'`{name}` was computed from {src}, which '
+                              f'advances at `{au.stext(S.ast)}`; this use is '
+                              'reached afterwards without recomputing it, so '
+                              'later cycles use the first cycle\'s coarsest '
+                              'level / cycle count',
+                              ctx.where(sm, U.ast),
+                              sample={'name': name, 'source': src})
+    ctx.need(n_uses >= 3, f'only {n_uses} uses of direction-derived locals')
+
+
 def run(ctx):
     ctx.explanation = (
         'Decision code of the hierarchy (halving guard, blocked-axis '
@@ -480,3 +576,4 @@ def run(ctx):
     rule_H3(ctx, sm)
     rule_H4_H5(ctx, sm)
     rule_H6_H7(ctx, sm)
+    rule_H8(ctx, sm)
